@@ -158,6 +158,55 @@ theorem queriesNew_wf {e : Codec ε} {d : Codec δ} (nodes : List (List δ)) (va
     (hsmall : q.values.length < 4294967296 ∧ q.paths.length < 4294967296) : queries.wf q = true := by
   simp [queries, hsmall.1, hsmall.2]
 
+/-- `Commitments::new` then `Commitments::parse` gives back the trace roots, the constraint root and the FRI
+    roots (at least one FRI root: the remainder commitment) -/
+theorem commitments_parse_roundtrip {d : Codec δ} (hd : d.RT) (t : List δ) (c : δ) (f : List δ) (hf : f ≠ [])
+    (ht : t.all d.wf = true) (hc : d.wf c = true) (hfw : f.all d.wf = true) :
+    commitmentsParse d (commitmentsNew d t c f) t.length (f.length - 1) = .ok (t, c, f) :=
+  commitmentsParse_new hd t c f hf ht hc hfw
+
+example : commitmentsParse (byteDigest 2) (commitmentsNew (byteDigest 2) [[1, 2]] [3, 4] [[5, 6]]) 1 0 =
+    .ok ([[1, 2]], [3, 4], [[5, 6]]) := by decide
+
+/-- `OodFrame::set_trace_states` + `set_constraint_evaluations`, then `OodFrame::parse` with the widths the
+    frame was built for (`main` main columns, the others auxiliary, plus one for a non-empty Lagrange kernel
+    frame), give back both rows, the Lagrange kernel frame and the evaluations -/
+theorem oodFrame_parse_roundtrip {e : Codec ε} (he : e.RT) (cur next : List ε) (lag : Option (List ε))
+    (evals : List ε) (main : Nat) (ts l eb : Bytes)
+    (h1 : oodSetTraceStates e cur next lag = some (ts, l)) (h2 : oodSetEvaluations e evals = some eb)
+    (hmain : 0 < main) (hw : main ≤ cur.length)
+    (hcur : cur.all e.wf = true) (hnext : next.all e.wf = true)
+    (hlag : (lag.getD []).all e.wf = true) (hev : evals.all e.wf = true) :
+    oodParse e ⟨ts, l, eb⟩ main (cur.length - main + (if (lag.getD []).isEmpty then 0 else 1)) evals.length =
+      .ok (cur, next, (if (lag.getD []).isEmpty then none else some (lag.getD [])), evals) :=
+  oodParse_set he cur next lag evals main ts l eb h1 h2 hmain hw hcur hnext hlag hev
+
+example : oodSetTraceStates (elem F64.impl) [1, 2] [3, 4] (some [9]) =
+    some ([2, 1,0,0,0,0,0,0,0, 3,0,0,0,0,0,0,0, 2,0,0,0,0,0,0,0, 4,0,0,0,0,0,0,0], [1, 9,0,0,0,0,0,0,0]) := by
+  decide
+
+/-- what the setters store is a value of the serialized type -/
+theorem oodSet_wf {e : Codec ε} (cur next : List ε) (lag : Option (List ε)) (evals : List ε) (ts l eb : Bytes)
+    (h1 : oodSetTraceStates e cur next lag = some (ts, l)) (h2 : oodSetEvaluations e evals = some eb)
+    (hl : l.length < 65536) : oodFrame.wf ⟨ts, l, eb⟩ = true := by
+  unfold oodSetTraceStates at h1
+  unfold oodSetEvaluations at h2
+  simp only [] at h1 h2
+  split at h1
+  · cases h1
+  · split at h1
+    · cases h1
+    · rename_i hc
+      split at h2
+      · cases h2
+      · rename_i hc2
+        simp only [Option.some.injEq, Prod.mk.injEq] at h1 h2
+        obtain ⟨rfl, rfl⟩ := h1
+        subst h2
+        simp only [not_or, Nat.not_lt, Nat.not_le] at hc hc2
+        simp only [oodFrame, Bool.and_eq_true, decide_eq_true_eq]
+        omega
+
 -- ------------------------------------------------------------------------------------------------
 -- Commitments: the constructor accepts what the writer refuses (recorded in known_findings.json,
 -- site commitments.encode.panic)
